@@ -1,6 +1,7 @@
 import Reduino.Lang.Render
 import Reduino.Lang.InF
 import Reduino.Lemmas.C01c
+import Reduino.Lemmas.C01t
 /- C01 helpers, part d: frame lemma of the C interpreter, facts about `trNested`/`okNested` -/
 namespace Reduino.Lemmas.C01
 open Reduino.Lang
@@ -59,6 +60,24 @@ theorem C_frame (f : Nat) :
         obtain ⟨t, _, rfl⟩ := assignTo_ok hs'
         simp only [Stmt.assigned, List.mem_singleton] at hx
         exact get_set_ne _ _ hx
+      | tuple k xs es => rw [C.exec] at h; cases h
+      | ctuple k ts xs es =>
+        rw [C.exec] at h
+        split at h
+        · cases h
+        · split at h
+          · cases h
+          · obtain ⟨s1, h1, h⟩ := bind_ok h
+            obtain ⟨s2, h2, h⟩ := bind_ok h
+            cases h
+            simp only [Stmt.assigned] at hx
+            show (C.dropTemps st.store k ts.length s2).get x = st.store.get x
+            by_cases hxt : ∃ j, k ≤ j ∧ j < k + ts.length ∧ x = tmpName j
+            · obtain ⟨j, h1', h2', rfl⟩ := hxt
+              exact dropTemps_tmp _ _ _ _ j h1' h2'
+            · have hxt' : ∀ j, k ≤ j → j < k + ts.length → x ≠ tmpName j := fun j a b c => hxt ⟨j, a, b, c⟩
+              rw [dropTemps_other _ x _ _ _ hxt', assignTemps_frame _ _ _ _ h2 x hx,
+                (declTemps_frame _ _ _ _ _ _ h1).2 x hxt']
       | ifs c a b =>
         rw [C.exec] at h
         obtain ⟨v, _, h⟩ := bind_ok h
@@ -137,6 +156,8 @@ theorem trNested_assigned {te : C.TyEnv} {m : Bool} {d : Nat} {s s' : Stmt}
     simp only [Stmt.assigned, iha ha, ihb hb]
   | assign x e => rw [trNested] at h; split at h <;> cases h; rfl
   | aug x op e => rw [trNested] at h; split at h <;> cases h; rfl
+  | tuple k xs es => rw [trNested] at h; split at h <;> cases h; rfl
+  | ctuple k ts xs es => rw [trNested] at h; cases h
   | ifs c a b iha ihb =>
     rw [trNested] at h
     obtain ⟨a', ha, h⟩ := bind_ok h
@@ -180,6 +201,13 @@ theorem okNested_assigned_decl {all : List String} {te : C.TyEnv} {s : Stmt}
     simp only [Stmt.okNested, Bool.and_eq_true, beq_iff_eq] at h
     intro x hx; simp only [Stmt.assigned, List.mem_singleton] at hx; subst hx
     rw [h.2]; rfl
+  | tuple k xs es =>
+    simp only [Stmt.okNested, Bool.and_eq_true, beq_iff_eq] at h
+    intro x hx
+    simp only [Stmt.assigned] at hx
+    obtain ⟨t, ht⟩ := okTargets_mem h.1.1.2 (by omega) x hx
+    rw [ht]; rfl
+  | ctuple k ts xs es => simp only [Stmt.okNested] at h; cases h
   | ifs c a b iha ihb =>
     simp only [Stmt.okNested, Bool.and_eq_true] at h
     simp only [Stmt.assigned, List.mem_append] at hall ⊢
